@@ -42,7 +42,10 @@ type hOpts struct {
 }
 
 // oddCookieForms: Cookie headers as browsers send them when other applications on the host set sloppy cookies.
-var oddCookieForms = []string{"{C};", "{C}; seen", `prefs={"theme":"dark","n":[1,2]}; {C}`, "; ; {C}", "a=b=c; {C}; d=\"q\""}
+var oddCookieForms = []string{"{C};", "{C}; seen", `prefs={"theme":"dark","n":[1,2]}; {C}`, "; ; {C}", "a=b=c; {C}; d=\"q\"",
+	// another cookie whose VALUE contains a comma followed by text shaped like the session cookie (cookies are
+	// separated by semicolons only)
+	"{C}; theme=dark,{N}=attackerchosenid", "theme=a,{N}=attackerchosenid; {C}"}
 
 type hSys struct {
 	W    *world.World
